@@ -15,6 +15,7 @@ harness builds crash images from the same trace, lets the REAL server recover, a
 recovered tree with the reference states after each prefix of operations.
 -/
 import GoNfsd.Lemmas.WalCrash
+import GoNfsd.Lemmas.MemLog
 
 namespace GoNfsd.Props.C01
 open GoNfsd.Model.Wal
@@ -102,5 +103,69 @@ example : Reach (fun _ => (⟨600, 0⟩ : Upd Nat))
     (step (step (step (step (step init .slot) .slot) .barrier) (.hdr1 2)) .barrier) := by
   refine Reach.step _ _ (Reach.step _ _ (Reach.step _ _ (Reach.step _ _ (Reach.step _ _ Reach.init ?_) ?_) ?_) ?_) ?_
   all_goals simp [GoNfsd.Model.Wal.guard, step, init, St.eIssued, L, GoNfsd.Gen.Consts.WAL_LOGSZ]
+
+/-! ### the in-memory log: a group commit is a prefix of WHOLE transactions -/
+
+open GoNfsd.Model.MemLog in
+/-- Group commits end at transaction boundaries, and absorption never reaches below one.
+    Take any history of the in-memory log: events `es1`, a flush request, then any events
+    `es2` (more transactions, absorbed into each other or not, more flushes).  Let `e` be the
+    value of `mutable` right after the flush — the end value the logger writes into header 1.
+    Then (a) the positions below `e` are never changed by anything that follows, and (b) they
+    hold exactly the transactions appended before the flush, all of each, in order. -/
+theorem group_is_txn_prefix (m0 : MemLog α) (es1 es2 : List (Ev α)) (h0 : m0.ok) :
+    let m1 := runEv m0 (es1 ++ [Ev.flush])
+    let m2 := runEv m1 es2
+    m2.log.take m1.mutable = m1.log.take m1.mutable ∧
+    ∀ (base : Nat → α) x, applyUpds base (m2.log.take m1.mutable) x = applyUpds base (m0.log ++ txnsOf es1) x := by
+  intro m1 m2
+  have hm1 : m1 = flush (runEv m0 es1) := by
+    simp [m1, runEv, List.foldl_append, stepEv]
+  obtain ⟨a1, _, _, _, a5⟩ := runEv_facts m0 es1 h0
+  have hok1 : m1.ok := by rw [hm1]; simp [flush, MemLog.ok]
+  obtain ⟨_, _, _, b4, _⟩ := runEv_facts m1 es2 hok1
+  refine ⟨b4, fun base x => ?_⟩
+  show applyUpds base ((runEv m1 es2).log.take m1.mutable) x = _
+  rw [b4, hm1]
+  simp only [flush, List.take_length]
+  exact a5 base x
+
+open GoNfsd.Model.MemLog in
+/-- The update sequence the on-disk log sees is the in-memory log: for a flush point `e` inside
+    the log, the WAL specification after `e` updates is the state after the transactions
+    appended before that flush. -/
+theorem spec_at_flush_point (base : Nat → α) (l : List (Upd α)) (d : Upd α) (e : Nat) (he : e ≤ l.length) (x : Nat) :
+    spec base (fun p => l.getD p d) e x = applyUpds base (l.take e) x := by
+  have : seg (fun p => l.getD p d) 0 e = l.take e := by
+    unfold seg
+    apply List.ext_getElem
+    · simp; omega
+    · intro i h1 h2
+      simp at h1 h2 ⊢
+      rw [List.getElem?_eq_getElem (by omega)]
+      rfl
+  unfold spec
+  rw [this]
+
+open GoNfsd.Model.MemLog in
+/-- NO OPERATION IS VISIBLE IN PART.  Let the update sequence of the on-disk log be the
+    in-memory log of a history `es1, flush, es2`, and let a crash state recover the header-1
+    value `e` written for that flush.  Then the recovered logical disk is exactly the disk after
+    ALL transactions of `es1` and NONE of `es2` — each NFS operation being one transaction. -/
+theorem crash_recovers_whole_transactions (base : Nat → α) (m0 : MemLog α) (es1 es2 : List (Ev α)) (h0 : m0.ok)
+    (d : Upd α) (s : St) (c : Crash)
+    (hr : Reach (fun p => (runEv (runEv m0 (es1 ++ [Ev.flush])) es2).log.getD p d) s)
+    (hv : c.valid s (fun p => (runEv (runEv m0 (es1 ++ [Ev.flush])) es2).log.getD p d))
+    (hend : c.endv = (runEv m0 (es1 ++ [Ev.flush])).mutable) (x : Nat) :
+    logical s base (fun p => (runEv (runEv m0 (es1 ++ [Ev.flush])) es2).log.getD p d) c x =
+      applyUpds base (m0.log ++ txnsOf es1) x := by
+  rw [crash_logical s base _ c hr hv x, hend]
+  obtain ⟨g1, g2⟩ := group_is_txn_prefix m0 es1 es2 h0
+  have hm1 : runEv m0 (es1 ++ [Ev.flush]) = flush (runEv m0 es1) := by
+    simp [runEv, List.foldl_append, stepEv]
+  have hok1 : (runEv m0 (es1 ++ [Ev.flush])).ok := by rw [hm1]; simp [flush, MemLog.ok]
+  obtain ⟨_, _, b3, _, _⟩ := runEv_facts (runEv m0 (es1 ++ [Ev.flush])) es2 hok1
+  rw [spec_at_flush_point base _ d _ (by unfold MemLog.ok at hok1; omega) x]
+  exact g2 base x
 
 end GoNfsd.Props.C01
